@@ -156,12 +156,28 @@ func (c *clientFile) xattrWalkRead(attr string) ([]byte, error) {
 	if rxattrwalk.Size == 0 {
 		return []byte{}, nil
 	}
-	buf := make([]byte, rxattrwalk.Size)
-	n, err := xattrFile.ReadAt(buf, 0)
-	if err != nil && !errors.Is(err, io.EOF) {
-		return nil, err
+
+	// The size is the peer's word, 64 bits of it: the buffer grows with what
+	// actually arrives instead of being allocated up front.
+	const step = 1 << 20
+	var buf []byte
+	for uint64(len(buf)) < rxattrwalk.Size {
+		want := rxattrwalk.Size - uint64(len(buf))
+		if want > step {
+			want = step
+		}
+		start := len(buf)
+		buf = append(buf, make([]byte, want)...)
+		n, err := xattrFile.ReadAt(buf[start:], int64(start))
+		buf = buf[:start+n]
+		if err != nil && !errors.Is(err, io.EOF) {
+			return nil, err
+		}
+		if uint64(n) < want {
+			break
+		}
 	}
-	return buf[:n], nil
+	return buf, nil
 }
 
 // usableBy reports whether f can be named as an argument in a request made
